@@ -44,6 +44,7 @@ def renderTok : Tok → String
   | .null => "Z"
   | .comment => "C"
   | .eof => "E"
+  | .refKw => "N52"
 
 def lexLt : Bytes → Bytes → Bool
   | [], [] => false
@@ -207,8 +208,11 @@ def handle (req impl : String) : String × String :=
   | ["pred", p, cols, colors, bpc, h] =>
     match intOrAbsent p, intOrAbsent cols, intOrAbsent colors, intOrAbsent bpc, bytesOfHex? h with
     | some p, some cols, some colors, some bpc, some bs =>
-      let r := filterThenPredict bs p cols bpc colors
-      (showOutcome r (fun v => "ok:" ++ hexField v), oracle "pred" impl (predOf r))
+      -- /Predictor 2 (TIFF) is not modelled here: no prediction, only the oracle
+      if (p.map predictorModelled).getD true = false then (impl, oracle "pred" impl .none)
+      else
+        let r := filterThenPredict bs p cols bpc colors
+        (showOutcome r (fun v => "ok:" ++ hexField v), oracle "pred" impl (predOf r))
     | _, _, _, _, _ => bad
   | ["lex", pre, h] =>
     match optsOf pre, bytesOfHex? h with
@@ -233,9 +237,11 @@ def handle (req impl : String) : String × String :=
   | ["rep", kind, pre, pfx, unit, n, sfx] =>
     match optsOf pre, bytesOfHex? pfx, bytesOfHex? unit, n.toNat?, bytesOfHex? sfx with
     | some o, some pfx, some unit, some n, some sfx =>
-      -- beyond 60 repetitions the depth is extrapolated linearly (the pumping lemmas of Props/C01
-      -- justify this for the generated families); the driver itself never recurses deeply
-      let n0 := min n 60
+      -- beyond 600 repetitions the depth is extrapolated linearly: by then the object parser has hit
+      -- `MAX_OBJECT_NESTING` (slope 0, `C01_obj_depth_bounded`), the lexer's depth is constant
+      -- (`C01_lex_depth_const`) and the content tokenizer's grows by one per unit
+      -- (`C01_witness_content_depth`); the driver itself never recurses deeply
+      let n0 := min n 600
       let (body, d0) := repEval kind o (repBytes pfx unit n0 sfx)
       let d := if n > n0 then
           let (_, d1) := repEval kind o (repBytes pfx unit (n0 + 1) sfx)
